@@ -18,6 +18,7 @@ import SharkVerif.Lemmas.ModelsIndex
 import SharkVerif.Lemmas.ModelsPool
 import SharkVerif.Lemmas.ModelsRBF
 import SharkVerif.Lemmas.ModelsConv
+import SharkVerif.Lemmas.ModelsCMAC
 namespace SharkVerif.C04
 open SharkVerif.Models Scalar
 
@@ -824,6 +825,27 @@ theorem cmac_parameter_derivative_correct (toNat : ℝ → ℕ) (m : CMAC ℝ) (
         ({ m with params := m.params.set q0 t } : CMAC ℝ).evalB toNat X i o)
       (m.gradParam toNat B X C q0) (m.params.getD q0 0) :=
   cmac_param_derivative_correct toNat m B X C q0 hq
+
+/-- **CMAC tile hashing** (integer arithmetic): if every per-dimension tile number is below the number of
+tiles, every parameter position accessed by `eval` / `weightedParameterDerivative` lies inside the
+parameter vector … -/
+theorem cmac_access_in_range {α : Type} [Scalar α] (toNat : α → Nat) (m : CMAC α) (t : Nat) (x : Nat → α)
+    (hdig : ∀ dim, dim < m.nIn → toNat (((x dim - m.lower) - m.offset t) / m.tileWidth) < m.tiles)
+    (ht : t < m.tilings) (o : Nat) (ho : o < m.nOut) :
+    m.index toNat t x + o * m.perTiling < m.numberOfParameters :=
+  cmac_access_in_bounds toNat m t x hdig ht o ho
+/-- … and the position determines the output, the tiling and every tile number (no two different
+(output, tiling, tile) triples share a parameter) -/
+theorem cmac_access_determines_tile {α : Type} [Scalar α] (toNat : α → Nat) (m : CMAC α) (t1 t2 : Nat)
+    (x1 x2 : Nat → α)
+    (hdig1 : ∀ dim, dim < m.nIn → toNat (((x1 dim - m.lower) - m.offset t1) / m.tileWidth) < m.tiles)
+    (hdig2 : ∀ dim, dim < m.nIn → toNat (((x2 dim - m.lower) - m.offset t2) / m.tileWidth) < m.tiles)
+    (ht1 : t1 < m.tilings) (ht2 : t2 < m.tilings) (o1 o2 : Nat)
+    (h : m.index toNat t1 x1 + o1 * m.perTiling = m.index toNat t2 x2 + o2 * m.perTiling) :
+    o1 = o2 ∧ t1 = t2 ∧ ∀ dim, dim < m.nIn →
+      toNat (((x1 dim - m.lower) - m.offset t1) / m.tileWidth)
+        = toNat (((x2 dim - m.lower) - m.offset t2) / m.tileWidth) :=
+  cmac_access_injective toNat m t1 t2 x1 x2 hdig1 hdig2 ht1 ht2 o1 o2 h
 
 /-! ### non-vacuity -/
 def demo : Dense Rat := { nIn := 2, nOut := 2, W := fun k j => (k + 2 * j : Nat), hasB := true, b := fun k => (k : Nat), act := .rectifier }
